@@ -45,19 +45,23 @@ SPEC = dict(
     rule="messages built through the public QXmppMessage API from a catalogue of 35 extension fields (every setter of "
          "QXmppMessage plus extended addresses and application-supplied unknown extensions; 77 value variants: each hint/chat-state/marker/JMI/call-invite type, 1-3 list "
          "entries): every field singly in every variant, ALL pairs (twice), all fields together, all triples (thorough), and "
-         "400 (quick) / 6000 (thorough) seeded random subsets. Per message 19 compared lines: children (tag, namespace, order) "
+         "400 (quick) / 6000 (thorough) seeded random subsets. Per message 29 compared lines: children (tag, namespace, order) "
          "of toXml in ScePublic/SceSensitive/SceAll and of serializeExtensions(SceSensitive, jabber:client) inside a real SCE "
          "envelope; fields set + unknown extensions after parse(part, mode) for all 9 part/mode combinations; and after the "
          "two-step receive path (parse public, then parseExtensions content / parse toXml-sensitive); and through a REAL QXmppClient "
          "with a dummy QXmppE2eeExtension shaped like the OMEMO manager: children of the packet QXmppClient::sendSensitive hands "
          "to the stream, and the message delivered (messageReceived) after feeding those bytes to the stream's receive path "
          "(handlePacketReceived -> MessagePipeline -> handleMessage/decrypt -> injectMessage), plain and with plaintext "
-         "thread/subject/receipt/marker/body injected next to the encrypted payload. The model side is computed "
+         "thread/subject/receipt/marker/body injected next to the encrypted payload; and HISTORIES before the split: one and two "
+         "combined-mode cycles (toXml(SceAll) -> parse(SceAll) into a fresh object) and the receive path followed by a second "
+         "split, each followed by the public part and the envelope content of the resulting object. The model side is computed "
          "from the table the translator regenerates from QXmppMessage.cpp on every run. A case is non-trivial when its lines "
          "show >= 2 distinct observations. Oracle per message, independent of model and table: no payload string and no "
          "non-whitelisted element in the public bytes (and the payload strings do occur in the envelope), multiset partition, "
          "getter-level recovery; the same on the bytes the real client sends (must equal the public part) and on the message the "
-         "real client delivers (must equal the original; injected plaintext must not become payload).",
+         "real client delivers (must equal the original; injected plaintext must not become payload); after every history step "
+         "the split of the resulting object is judged again (leak, whitelist with the fallback text the application set, "
+         "partition, fallback text never invented, cycle keeps every getter value).",
     trusted_base=[
         "Lean 4.33.0 kernel; axioms per theorem listed under coverage.theorems (subset of propext, Classical.choice, Quot.sound)",
         "translators/sce_table.py (regex reader of QXmppMessage.cpp, QXmppStanza.{h,cpp}, QXmppConstants_p.h and the helper classes' "
